@@ -31,6 +31,10 @@ impl<'a, T: DDNNFPtr<'a>> IteTable<'a, T> for LruIteTable<T> {
     fn get(&self, ite: Ite<T>, hash: u64) -> Option<T> {
         match ite {
             Ite::IteChoice { f, g, h } | Ite::IteComplChoice { f, g, h } => {
+                #[cfg(rsdd_verif)]
+                if crate::verif::buggify(crate::verif::Site::IteCacheForget) {
+                    return None;
+                }
                 let r = self.table.get((f, g, h), hash);
                 let compl = ite.is_compl_choice();
                 if compl {
@@ -59,6 +63,12 @@ impl<'a, T: DDNNFPtr<'a>> IteTable<'a, T> for LruIteTable<T> {
 
 impl<'a, T: DDNNFPtr<'a>> LruIteTable<T> {
     fn new() -> LruIteTable<T> {
+        #[cfg(rsdd_verif)]
+        if let Some(cap) = crate::verif::knob_lru_capacity_pow() {
+            return LruIteTable {
+                table: Lru::new(cap),
+            };
+        }
         LruIteTable {
             table: Lru::new(INITIAL_CAPACITY),
         }
